@@ -450,7 +450,11 @@ def apply_alias(s, alias):
     if not alias:
         return s
     for long, short_ in alias:
-        s = s.replace(long, short_)
+        if long.startswith("re:"):
+            import re as _re
+            s = _re.sub(long[3:], short_, s)
+        else:
+            s = s.replace(long, short_)
     return s
 
 
